@@ -39,6 +39,8 @@ type mconnSpec struct {
 	Stack     bool   `json:"stack"`      // run the stream through a real SecretConnection pair
 	Raw       string `json:"raw"`        // non-empty: a hand-made packet stream instead of a sender (rawStream)
 	Param     int    `json:"param"`
+
+	chunks [][]byte // not serialised: a recorded wire stream to hand to the receiving half (flushstop.go)
 }
 
 func mconnConfig() conn.MConnConfig {
@@ -323,7 +325,9 @@ func runMconn(s mconnSpec) (fs []finding, obs mconnObs) {
 	}
 
 	// ---- the byte stream
-	if s.Raw != "" {
+	if s.chunks != nil {
+		obs.chunks = s.chunks
+	} else if s.Raw != "" {
 		obs.chunks = rawStream(s)
 	} else {
 		p.ab.hold = true
@@ -335,7 +339,7 @@ func runMconn(s mconnSpec) (fs []finding, obs mconnObs) {
 	obs.pkts = len(pkts)
 
 	// ---- sender oracle: the packet stream carries every accepted message, whole, in channel order
-	if s.Raw == "" {
+	if s.Raw == "" && s.chunks == nil {
 		if garbage {
 			add("mconn:send", "packetisation", "the sender's byte stream is not a sequence of delimited packets")
 		}
